@@ -1,6 +1,15 @@
 """Print the prompt given to a mutation sub-agent for one property (only the property text and its worktree)."""
 import json, sys
 pid, wt = sys.argv[1], sys.argv[2]
+start = int(sys.argv[3]) if len(sys.argv) > 3 else 1  # numbering of the seeds (second round: 4)
+import glob, re
+sites = []
+for f in sorted(glob.glob(f'/verif/seeded/{pid}_*/patch.diff')):
+    txt = open(f).read()
+    files = re.findall(r'^\+\+\+ b/(\S+)', txt, re.M)
+    funcs = re.findall(r'^@@ .*@@ (?:async )?(?:def|class) (\w+)', txt, re.M)
+    sites.append(f"{', '.join(files)} ({', '.join(dict.fromkeys(funcs)) or 'module level'})")
+avoid = ("\n\nAn earlier round already planted changes at these sites; choose DIFFERENT sites and different failure mechanisms this time: " + "; ".join(sites) + ".") if sites and start > 1 else ""
 p = [json.loads(l) for l in open('/verif/properties.jsonl') if json.loads(l)['id'] == pid][0]
 print(f"""You are testing a verification effort by planting realistic bugs. You work ONLY inside the scratch git worktree {wt} (a checkout of the Python library EasyNetwork: pure-Python TCP/UDP client/server library with incremental packet serializers, TLS transports and an asyncio backend). Do NOT read or modify /repo or /verif (never look inside /verif at all). Run Python as `PYTHONPATH={wt}/src /venv/bin/python` so that the worktree's sources are imported (check with `import easynetwork; print(easynetwork.__file__)`).
 
@@ -13,9 +22,9 @@ Here is a semantic property the library is supposed to satisfy:
 Your task: produce up to THREE different, independent source changes (each a separate patch against the clean worktree, touching only files under src/easynetwork) such that each one:
   1. breaks the property above in the real code,
   2. still imports/compiles, and still passes the existing test-suite: run `/tmp/tools/run_baseline.sh {wt}` (takes ~3 minutes; it must print `missing=0`, meaning all tests that passed before still pass),
-  3. is REALISTIC (the kind of slip a maintainer could make in a refactor or an "optimisation": an off-by-one, a wrong variable, a dropped branch, a reordered pair of statements, a lock released too early ...) and SUBTLE: it must need something specific to manifest - a particular chunking/interleaving/schedule, a fault or cancellation at a particular point, a multi-step sequence of operations, an unusual input, or two cooperating sites that each look fine alone. Changes that ordinary use would expose at once (everything fails) are not wanted. Prefer changes in different functions/files for the three patches, covering different aspects of the property.
+  3. is REALISTIC (the kind of slip a maintainer could make in a refactor or an "optimisation": an off-by-one, a wrong variable, a dropped branch, a reordered pair of statements, a lock released too early ...) and SUBTLE: it must need something specific to manifest - a particular chunking/interleaving/schedule, a fault or cancellation at a particular point, a multi-step sequence of operations, an unusual input, or two cooperating sites that each look fine alone. Changes that ordinary use would expose at once (everything fails) are not wanted. Prefer changes in different functions/files for the three patches, covering different aspects of the property.{avoid}
 
-For each change k = 1..3 create the directory {wt}/seeded/{pid}_k/ containing:
+For each change k = {start}..{start + 2} create the directory {wt}/seeded/{pid}_k/ containing:
   - patch.diff : `git diff` of the change against the clean worktree (apply with `git apply`),
   - demo.py    : a small self-contained program (run as `PYTHONPATH={wt}/src /venv/bin/python demo.py`) that exits 0 on the clean worktree and exits non-zero (with a clear message showing the property violation) when the patch is applied,
   - notes.md   : which part of the property it breaks, what exactly is needed for it to manifest, and the output of the baseline run (the `missing=0` line) with the patch applied.
